@@ -34,9 +34,19 @@ fn parse_content_line(
 
 fn parse_global_assignment(input: &str) -> Result<GlobalVariable, CompilerError> {
     let (name, expression) = split_assignment(input, "=")?;
+    let initial_value = parse_expression(&expression)?;
+    // The initial value is evaluated when the story is constructed: an arithmetic sign on a
+    // string literal can only fail there, so it is rejected here.
+    if let Expression::Negate(inner) = &initial_value
+        && matches!(**inner, Expression::Str(_))
+    {
+        return Err(CompilerError::invalid_source(format!(
+            "cannot negate a string in the initial value of '{name}'"
+        )));
+    }
     Ok(GlobalVariable {
         name,
-        initial_value: parse_expression(&expression)?,
+        initial_value,
     })
 }
 
